@@ -860,3 +860,55 @@ def width(ctx, report, rule, facts, config):
     ret = bt.local(0)
     ok = _is_call(d, ret, "max_threads") and ret[2] == (("field", ("param", 1), "inner", A.DISP),)
     report.ob(rule, "Dispatcher::max_threads", ok, "forwards to self.inner.max_threads()", site=d.loc(), config=config)
+
+
+# ------------------------------------------------------------------ the intersection primitive itself
+
+def intersect_body(ctx, report, rule, facts, config):
+    """check_intersection(i, j) is `exists a in i, exists b in j: b == a`: `any` over the whole of `i`, for each
+    element `any` over a fresh clone of the whole of `j`, compared with PartialEq::eq; no adaptor in between."""
+    prog = ctx.program(facts)
+    b = facts.one(A.F_CHECK_INTERSECTION)
+    report.touched(b, config)
+    bt = prog.bt(b)
+    problems = []
+    ret = bt.local(0)
+    if not (_is_call(b, ret, "any") and bt.callee(ret[1]).trait in A.ITERATOR and ret[2][0] == ("param", 1)):
+        problems.append("the result is not `i.any(..)` over the whole first iterator (%s)" % (ret[:2],))
+    cl1 = facts.closures_of(b, False)
+    if len(cl1) != 1:
+        problems.append("expected one closure in check_intersection")
+    else:
+        c1 = cl1[0]
+        report.touched(c1, config)
+        bt1 = prog.bt(c1)
+        r1 = bt1.local(0)
+        ok1 = (_is_call(c1, r1, "any") and bt1.callee(r1[1]).trait in A.ITERATOR and _is_call(c1, r1[2][0], "clone") and r1[2][0][2] == (("upvar", "j"),))
+        if not ok1:
+            problems.append("each element of `i` is not tested with `j.clone().any(..)` over the whole second iterator")
+        cr = prog.creation(c1)
+        if not (cr and dict(zip(cr[1][4], cr[1][3])).get("j") == ("param", 2)):
+            problems.append("the inner scan does not run over the second argument")
+        cl2 = facts.closures_of(c1, False)
+        if len(cl2) != 1:
+            problems.append("expected one innermost closure")
+        else:
+            c2 = cl2[0]
+            report.touched(c2, config)
+            bt2 = prog.bt(c2)
+            r2 = bt2.local(0)
+            ok2 = (_is_call(c2, r2, "eq") and bt2.callee(r2[1]).trait in ("std::cmp::PartialEq", "core::cmp::PartialEq")
+                   and set([root(x, bt2, facts.crate)[0] for x in r2[2]]) == set([("param", 2), ("upvar", "elem_i")]))
+            if not ok2:
+                problems.append("elements are not compared with `==` (element of j against the current element of i)")
+            cr2 = prog.creation(c2)
+            if not (cr2 and root(dict(zip(cr2[1][4], cr2[1][3])).get("elem_i"), bt1, facts.crate)[0] == ("param", 2)):
+                problems.append("the compared element is not the current element of `i`")
+    report.ob(rule, "check_intersection/body", not problems, "; ".join(problems) if problems else
+              "i.any(|a| j.clone().any(|b| *b == *a)): full scan of both sides, equality only", site=b.loc(), config=config)
+    # ids are compared with the compiler-derived equality over all their fields
+    for adt in (A.RESID, A.SYSID):
+        ims = [im for im in facts.impls if im.get("trait") == "std::cmp::PartialEq" and im.get("self_head") == adt]
+        ok = len(ims) == 1 and ims[0]["auto_derived"]
+        report.ob(rule, "derived-eq/%s" % adt.rsplit("::", 1)[1], ok, "#[derive(PartialEq)] over all fields" if ok else
+                  "%s has a hand-written PartialEq: conflicts between ids that differ in an ignored field would be missed or invented" % adt, config=config)
